@@ -1,7 +1,8 @@
 #!/bin/sh
 # process_round.sh <worktree-prefix e.g. /tmp/w3-> : confirm every SEED1/SEED2 and run the property's quick check against it
-PFX="$1"
-for p in C01 C02 C03 C04 C05 C06 C07 C08 C09 C10 C11 C12 C13 C14 C15 C16 C17 C18 C19; do
+PFX="$1"; shift
+LIST="${*:-C01 C02 C03 C04 C05 C06 C07 C08 C09 C10 C11 C12 C13 C14 C15 C16 C17 C18 C19}"
+for p in $LIST; do
   for i in 1 2; do
     s="$PFX$p/SEED$i"
     [ -f "$s/patch.diff" ] || { echo "$p-SEED$i MISSING"; continue; }
